@@ -277,6 +277,36 @@ func genC19Flow(r *rng, thorough bool, emit func(FlowScenario)) {
 					Steps: []Step{{Run: ip(0)}, {Run: ip(1)}}, Pairs: [][]int{{0, 1}}})
 			}
 		}
+		// a node configured through chained builder setters is the node a flow knows: two function-style nodes in a flow,
+		// the first one routing to the second (the connections are made from the builder the chain started from, the flow
+		// starts at / routes to what the last setter returned)
+		for _, k := range funcStyleKinds() {
+			if k.Build != "option" || k.PostS == "absent" {
+				continue
+			}
+			for _, bd := range builds {
+				a, b := k, k
+				a.Budget, b.Budget = 1+r.intn(3), 1+r.intn(2)
+				a.Build, b.Build = bd, builds[r.intn(len(builds))]
+				t.next, t.errN = r.intn(30), r.intn(20)
+				// node 0 succeeds at its last attempt (or by its fallback), node 1 at a random one
+				s0 := t.leafScript(0, 0, true, 1<<uint(a.Budget-1), a.Budget+1, true, "=go")
+				s1 := t.leafScript(1, 0, true, uint(r.next())&3, b.Budget+1, r.chance(60), postStr(t, r.intn(3), "a"))
+				// ... and the same flow with both nodes configured through constructor options only: the same observation
+				a2, b2 := a, b
+				a2.Build, b2.Build = "option", "option"
+				s2, s3 := s0, s1
+				s2.N, s3.N = 3, 4
+				s2.Exec, s3.Exec = append([]string{}, s0.Exec...), append([]string{}, s1.Exec...)
+				emit(FlowScenario{Kind: "canceled", Ctx0: "live",
+					Nodes: []NodeDef{{ID: 0, Leaf: &a}, {ID: 1, Leaf: &b},
+						{ID: 2, Flow: &FlowDef{Start: ip(0), Ops: []Conn{{Src: 0, Action: "go", Dst: ip(1)}}}},
+						{ID: 3, Leaf: &a2}, {ID: 4, Leaf: &b2},
+						{ID: 5, Flow: &FlowDef{Start: ip(3), Ops: []Conn{{Src: 3, Action: "go", Dst: ip(4)}}}}},
+					LeafScripts: []LeafScript{s0, s1, s2, s3}, BatchScripts: []BatchScript{},
+					Steps: []Step{{Run: ip(2)}, {Run: ip(5)}}, Pairs: [][]int{{0, 1}}})
+			}
+		}
 		// batch nodes
 		bbuilds := []string{"option", "builder", "mixed", "mixed2", "bare"}
 		vias := []string{"", "copt", "cbuilder"}
